@@ -28,4 +28,4 @@ META = dict(
           "checked by the scan on every generated value, not proved. Known finding field-level-first-set-by-update."),
     technique="Lean 4 proof (inheritance invariants of the encryption decision) + differential correspondence with byte-pattern search of all shared blocks and notifications",
 )
-ENGINES = [{"name": "encr", "path": "harness/encr", "serves_properties": ["C11"], "kind_free_text": "author node + unencrypted twin + key-less and key-holding receivers; per-operation block classification against drv encr; byte-pattern search of shared blocks, notifications and receiver stores"}]
+ENGINES = [{"name": "encr", "path": "harness/encr", "serves_properties": ["C04", "C11"], "kind_free_text": "author node + unencrypted twin + key-less and key-holding receivers; per-operation block classification against drv encr; byte-pattern search of shared blocks, notifications and receiver stores"}]
